@@ -190,13 +190,21 @@ func ruleSibling(p *Program, r *Result) {
 		}
 	}
 	// s3: Request.Fields dispatcher agrees
-	if F := p.LookupFunc("", "Request.Fields"); F != nil {
+	if F := p.view(p.LookupFunc("", "Request.Fields")); F != nil {
 		cases := headerTypeCases(F)
+		table, trial, _, tableOK, _ := candidateLists(F, cases, true)
+		if tableOK && !isRequestBody(trial.Common().Args[0]) {
+			tableOK = false
+		}
 		for _, tn := range typeNames {
 			cb, ok := cases[typeVal[tn]]
 			var tried []string
 			if ok {
 				tried, _ = decodersTriedUnder(F, cb)
+			}
+			if len(tried) == 0 && tableOK {
+				// written with data: the case selects a literal list of fresh bodies, one loop tries them in turn
+				tried, ok = table[typeVal[tn]], true
 			}
 			want := bodiesByType[tn]
 			r.cond(ok && strings.Join(tried, ",") == strings.Join(want, ","), "R-SIBLING", "Request.Fields:"+tn, p.Pos(F.Pos()),
@@ -556,12 +564,10 @@ func underInputLengthGuard(b *ssa.BasicBlock, fn *ssa.Function) bool {
 	return false
 }
 
-// tableDrivenDetector recognises the detector written with data: each header-type case selects a literal list
-// of fresh body values ([]EncoderDecoder{&T1{}, &T2{}}), one loop decodes the packet body into every element
-// of the selected list, counts the trials whose error is a BadSecretErr, and the count is compared with the
-// length of the list. Returns the body type names per header type value, and whether the loop and the
-// comparison have that exact shape.
-func tableDrivenDetector(D *ssa.Function, cases map[int64]*ssa.BasicBlock) (map[int64][]string, bool, string) {
+// candidateLists: the data-driven dispatch shared by the detector and Request.Fields: each header-type case selects a
+// literal list of fresh body values, and one loop decodes into the elements of the selected list. Returns the body
+// type names per header type value, the trial call and the list value.
+func candidateLists(D *ssa.Function, cases map[int64]*ssa.BasicBlock, allowNone bool) (map[int64][]string, *ssa.Call, ssa.Value, bool, string) {
 	// the literal lists
 	litNames := func(v ssa.Value) ([]string, bool) {
 		sl, ok := v.(*ssa.Slice)
@@ -636,19 +642,22 @@ func tableDrivenDetector(D *ssa.Function, cases map[int64]*ssa.BasicBlock) (map[
 			continue
 		}
 		if trial != nil {
-			return nil, false, "more than one trial loop"
+			return nil, nil, nil, false, "more than one trial loop"
 		}
 		trial, list = call, ia.X
 	}
 	if trial == nil {
-		return nil, false, ""
+		return nil, nil, nil, false, ""
 	}
 	out := map[int64][]string{}
 	srcs := phiSources(list)
 	for _, src := range srcs {
+		if allowNone && isNilConst(src) {
+			continue // no candidates for the remaining header types
+		}
 		names, ok := litNames(src)
 		if !ok {
-			return nil, false, "the candidate list is not chosen among literal lists of fresh body values"
+			return nil, nil, nil, false, "the candidate list is not chosen among literal lists of fresh body values"
 		}
 		sort.Strings(names)
 		blk := src.(ssa.Instruction).Block()
@@ -656,15 +665,28 @@ func tableDrivenDetector(D *ssa.Function, cases map[int64]*ssa.BasicBlock) (map[
 		for tv, cb := range cases {
 			if cb == blk || cb.Dominates(blk) {
 				if _, dup := out[tv]; dup {
-					return nil, false, "two candidate lists for one header type"
+					return nil, nil, nil, false, "two candidate lists for one header type"
 				}
 				out[tv] = names
 				found = true
 			}
 		}
 		if !found {
-			return nil, false, "a candidate list is built outside the header-type cases"
+			return nil, nil, nil, false, "a candidate list is built outside the header-type cases"
 		}
+	}
+	return out, trial, list, true, ""
+}
+
+// tableDrivenDetector recognises the detector written with data: each header-type case selects a literal list
+// of fresh body values ([]EncoderDecoder{&T1{}, &T2{}}), one loop decodes the packet body into every element
+// of the selected list, counts the trials whose error is a BadSecretErr, and the count is compared with the
+// length of the list. Returns the body type names per header type value, and whether the loop and the
+// comparison have that exact shape.
+func tableDrivenDetector(D *ssa.Function, cases map[int64]*ssa.BasicBlock) (map[int64][]string, bool, string) {
+	out, trial, list, ok, why := candidateLists(D, cases, false)
+	if !ok {
+		return nil, false, why
 	}
 	if !fieldIsBodyOfParamPacket(trial.Common().Args[0]) {
 		return out, false, "the trials do not decode the packet's body"
@@ -767,7 +789,7 @@ func hoistedThreshold(D *ssa.Function, cb *ssa.BasicBlock) (int64, []ssa.Value) 
 			continue
 		}
 		bo, ok := iff.Cond.(*ssa.BinOp)
-		if !ok || (bo.Op != token.EQL && bo.Op != token.NEQ) {
+		if !ok || (bo.Op != token.EQL && bo.Op != token.NEQ && bo.Op != token.LSS && bo.Op != token.GEQ) {
 			continue
 		}
 		px, okx := bo.X.(*ssa.Phi)
@@ -775,9 +797,11 @@ func hoistedThreshold(D *ssa.Function, cb *ssa.BasicBlock) (int64, []ssa.Value) 
 		if !okx || !oky || px.Block() != py.Block() || !(px.Block() == b || px.Block().Dominates(b)) {
 			continue
 		}
-		// the unequal side answers (nil, nil)
+		// the unequal side answers (nil, nil); 'count < layouts' is the same test, the count being raised at most
+		// once per trial (checked by the caller)
+		ordered := bo.Op == token.LSS || bo.Op == token.GEQ
 		ne := b.Succs[1]
-		if bo.Op == token.NEQ {
+		if bo.Op == token.NEQ || bo.Op == token.LSS {
 			ne = b.Succs[0]
 		}
 		ret, ok := ne.Instrs[len(ne.Instrs)-1].(*ssa.Return)
@@ -798,7 +822,7 @@ func hoistedThreshold(D *ssa.Function, cb *ssa.BasicBlock) (int64, []ssa.Value) 
 			switch {
 			case isCy && !isCx:
 				k, v = cy, px.Edges[i]
-			case isCx && !isCy:
+			case isCx && !isCy && !ordered:
 				k, v = cx, py.Edges[i]
 			default:
 				consistent = false
